@@ -807,6 +807,13 @@ func c19Scenarios(tier string) []*world.Scenario {
 		}
 		out = append(out, sc)
 	}
+	// round 10: a request cut inside its array-header line or first bulk-header line, also at a read-buffer boundary
+	for _, rq := range []Req{GetReq(keysA[0]), MGetReq(keysA[0], keysB[0]), SetReq(keysB[1], "value")} {
+		for cut := 1; cut <= 7; cut++ {
+			out = append(out, HeaderCut("C19", rq, cut, 0, 1))
+		}
+	}
+	out = append(out, HugeIncomplete("C19", 33<<20+4096, 0))
 	return out
 }
 
